@@ -1,5 +1,6 @@
 SPECIFICATION Spec
 CONSTANTS
+  ReAddOn <- ReAddEnv
   Lng <- LngDef
   NamePool = {"n1", "NONE"}
   IdPool <- IdPoolSmall
